@@ -49,12 +49,12 @@ Inductive recv_out :=
 | RecvConnError (code : N)                     (* connection error with this code *)
 | RecvPanic.
 
-Definition recv_section (own_limit : bool) (own : N) (ps : peer_settings) (bs : bytes) : recv_out :=
+Definition recv_section (own_limit : bool) (code : N) (own : N) (ps : peer_settings) (bs : bytes) : recv_out :=
   let limit := if own_limit then own else limit_in_force ps in
   match decode_stateless (Some limit) bs with
   | Ok (fs, _) => Delivered fs
   | Err (DHeaderTooLong n) => RecvTooBig n limit
-  | Err _ => RecvConnError QPACK_DECOMPRESSION_FAILED
+  | Err _ => RecvConnError code                   (* handle_connection_error_on_stream(InternalConnectionError { code, .. }) *)
   | Panic _ => RecvPanic
   end.
 
@@ -74,7 +74,7 @@ Definition refusal_fields : list field := [([58; 115; 116; 97; 116; 117; 115], s
 
 (* server: accept_with_frame decodes; resolve() answers an oversized request *)
 Definition server_recv_request (own : N) (ps : peer_settings) (bs : bytes) : recv_obs :=
-  match recv_section lim_recv_request_own own ps bs with
+  match recv_section lim_recv_request_own lim_recv_request_decomp_code own ps bs with
   | RecvTooBig n mx =>
       match send_response own ps refusal_fields with
       | Sent p => {| ro_result := RecvTooBig n mx; ro_written := Some p; ro_stop := None |}
@@ -89,17 +89,17 @@ Definition server_recv_request (own : N) (ps : peer_settings) (bs : bytes) : rec
 
 (* client: recv_response *)
 Definition client_recv_response (own : N) (ps : peer_settings) (bs : bytes) : recv_obs :=
-  match recv_section lim_recv_response_own own ps bs with
+  match recv_section lim_recv_response_own lim_recv_response_decomp_code own ps bs with
   | RecvTooBig n mx => {| ro_result := RecvTooBig n mx; ro_written := None; ro_stop := Some lim_client_response_stop_code |}
   | r => {| ro_result := r; ro_written := None; ro_stop := None |}
   end.
 
 (* trailers: connection.rs poll_recv_trailers; the client wrapper adds stop_sending *)
 Definition server_recv_trailers (own : N) (ps : peer_settings) (bs : bytes) : recv_obs :=
-  {| ro_result := recv_section lim_recv_trailers_own own ps bs; ro_written := None; ro_stop := None |}.
+  {| ro_result := recv_section lim_recv_trailers_own lim_recv_trailers_decomp_code own ps bs; ro_written := None; ro_stop := None |}.
 
 Definition client_recv_trailers (own : N) (ps : peer_settings) (bs : bytes) : recv_obs :=
-  match recv_section lim_recv_trailers_own own ps bs with
+  match recv_section lim_recv_trailers_own lim_recv_trailers_decomp_code own ps bs with
   | RecvTooBig n mx => {| ro_result := RecvTooBig n mx; ro_written := None; ro_stop := Some lim_client_trailers_stop_code |}
   | r => {| ro_result := r; ro_written := None; ro_stop := None |}
   end.
